@@ -39,7 +39,7 @@ func vSetup() (d *sackDriver, sink *N.Sink, src *N.Source, local netip.Addr, tar
 	V.Assume(min <= max)
 	V.Assume(max-min <= W-1)
 	V.Assume(int(max) <= V.ParamInt("maxTTL", 255))
-	sink, src = &N.Sink{}, &N.Source{}
+	sink, src = &N.Sink{Takes: V.ParamInt("writeTakes", 0) == 1}, &N.Source{}
 	var err error
 	d, err = newSackDriver(vParams(target, min, max, V.ParamInt("loosen", 0) == 1), local, sink, src)
 	V.Assert(err == nil, "setup/no-error")
